@@ -1091,3 +1091,23 @@ pub fn pack_fields_bad(id: u32, offset: u32) -> u32 {
 pub fn unpack_fields_ok(w: u32) -> (u32, u32) {
     (w >> 30, w & 0x3FFF_FFFF)
 }
+
+// ---------------------------------------------------------------------------------------------------------------
+// E-names witnesses: sibling fields mixed up
+// ---------------------------------------------------------------------------------------------------------------
+pub struct PageCfg {
+    pub ckey_page_size_kb: u16,
+    pub ekey_page_size_kb: u16,
+}
+
+pub fn sibling_sizes_ok(c: &PageCfg) -> (usize, usize) {
+    let ckey_page_size = c.ckey_page_size_kb as usize * 1024;
+    let ekey_page_size = c.ekey_page_size_kb as usize * 1024;
+    (ckey_page_size, ekey_page_size)
+}
+
+pub fn sibling_sizes_bad(c: &PageCfg) -> (usize, usize) {
+    let ckey_page_size = c.ckey_page_size_kb as usize * 1024;
+    let ekey_page_size = c.ckey_page_size_kb as usize * 1024;
+    (ckey_page_size, ekey_page_size)
+}
